@@ -257,30 +257,30 @@ Qed.
 Lemma o_close_sound : forall sc ob, o_close sc ob = true <-> s_close sc ob.
 Proof.
   intros sc ob. unfold o_close, s_close.
-  destruct (close_step sc) as [c|] eqn:Ec.
-  2:{ split; [|reflexivity]. intros _ c d Hc. discriminate Hc. }
-  destruct (done_step ob c) as [d|] eqn:Ed.
-  2:{ split; [|reflexivity]. intros _ c' d' Hc Hd. injection Hc as <-. rewrite Ed in Hd.
-      discriminate Hd. }
-  rewrite andb_true_iff. split.
-  - intros [HA HB] c' d' Hc Hd. injection Hc as <-. rewrite Ed in Hd. injection Hd as <-.
+  destruct (close_step sc) as [c0|] eqn:Ec.
+  2:{ split; [|reflexivity]. intros _ c0 c d Hc. discriminate Hc. }
+  rewrite forallb_forall. split.
+  - intros Hall c0' c d Hc Hin Ed. injection Hc as <-. specialize (Hall c Hin).
+    unfold close_ok in Hall. rewrite Ed in Hall. apply andb_true_iff in Hall as [HA HB].
     rewrite forallb_forall in HA. rewrite forallb_forall in HB. split.
-    + intros r i v Hin. specialize (HA (r, ERecv i v) Hin). cbn [fst snd] in HA.
+    + intros r i v Hin'. specialize (HA (r, ERecv i v) Hin'). cbn [fst snd] in HA.
       apply Z.leb_le. exact HA.
-    + intros i p pr q Hin Hq Hqc x Hx. specialize (HB (i, (p, pr)) Hin).
+    + intros i p pr q Hin' Hq Hqc x Hx. specialize (HB (i, (p, pr)) Hin').
       cbv zeta in HB. cbn [fst snd] in HB. rewrite Hq in HB.
-      rewrite (proj2 (Z.ltb_lt q c) Hqc) in HB. cbn [negb orb] in HB. rewrite Hx in HB.
+      rewrite (proj2 (Z.ltb_lt q c0) Hqc) in HB. cbn [negb orb] in HB. rewrite Hx in HB.
       destruct (closed_step ob i) as [y|]; [|discriminate HB].
       exists y. split; [reflexivity|]. apply Z.leb_le. exact HB.
-  - intros H. destruct (H c d eq_refl Ed) as [HA HB]. split; apply forallb_forall.
-    + intros [r [i v|i|c']] Hin; cbn [fst snd]; try reflexivity.
-      apply Z.leb_le. exact (HA r i v Hin).
-    + intros [i [p pr]] Hin. cbv zeta. cbn [fst snd].
+  - intros H c Hin. unfold close_ok. destruct (done_step ob c) as [d|] eqn:Ed; [|reflexivity].
+    destruct (H c0 c d eq_refl Hin Ed) as [HA HB]. apply andb_true_iff.
+    split; apply forallb_forall.
+    + intros [r [i v|i|c']] Hin'; cbn [fst snd]; try reflexivity.
+      apply Z.leb_le. exact (HA r i v Hin').
+    + intros [i [p pr]] Hin'. cbv zeta. cbn [fst snd].
       destruct (done_step ob p) as [q|] eqn:Eq; [|reflexivity].
-      destruct (q <? c) eqn:Eqc; [|reflexivity]. cbn [negb orb].
+      destruct (q <? c0) eqn:Eqc; [|reflexivity]. cbn [negb orb].
       apply Z.ltb_lt in Eqc.
       destruct (if pr then Some p else readall_step sc i) as [x|] eqn:Ex; [|reflexivity].
-      destruct (HB i p pr q Hin Eq Eqc x Ex) as [y [Hy Hle]]. rewrite Hy.
+      destruct (HB i p pr q Hin' Eq Eqc x Ex) as [y [Hy Hle]]. rewrite Hy.
       apply Z.leb_le. exact Hle.
 Qed.
 
